@@ -157,6 +157,24 @@ def run(chk):
         if got != want:
             chk.violate({"kind": "property", "case": lib.show_case(("csseq", [x if len(x) < 40 else b"<signed document>" for x in c[1]])), "impl": got[:900], "expected": want[:900],
                          "explanation": "a read through a keyring variable whose contents were replaced gives another outcome than the same read with a fresh keyring of those contents"})
+    # a read that fails half-way leaves nothing behind: the source delivers a complete, validly signed document and then breaks
+    # off with an error (that read must fail); the next read - unsigned text, a foreign signature, a modified document, another
+    # good document - is judged on its own
+    fc, fw = [], []
+    seconds = [c for c in cases if (c[1][0], c[1][1]) in single][::max(1, len(cases) // chk.n(150, 1500))]
+    for (k, t), sd in list(zip(docs, signed))[:6]:
+        for c in seconds[:chk.n(40, 400)]:
+            kr = c[1][0]
+            if kr == b"n":
+                continue
+            fc.append(("csafterfail", [kr, sd, c[1][1]])); fw.append(single[(kr, c[1][1])])
+    fi = chk.run_impl(fc)
+    chk.record("after-a-failed-read", fc, fi, lambda c, r: True)
+    for c, got, want in zip(fc, fi, fw):
+        parts = got.split(" ## ")
+        if len(parts) != 2 or parts[0].startswith("ok signer") or parts[1] != want:
+            chk.violate({"kind": "property", "case": lib.show_case(("csafterfail", [c[1][0], b"<signed document, then a read error>", c[1][2][:300]])), "impl": got[:900], "expected_second": want[:600],
+                         "explanation": "a read whose source failed half-way succeeded, or the read after it was not judged on its own input (something of the failed read was left behind)"})
     # sanity of the streams: the unmodified signed documents must be accepted with their signer's keyring
     good = sum(1 for t, (o, im, d) in zip(tags, o3) if t == "keyrings" and im.startswith("ok signer=x"))
     if good == 0:
